@@ -61,6 +61,10 @@ func litProblem(v interface{}, tv types.TypeAndValue, known bool, text string) s
 		return g == f
 	}
 	switch x := v.(type) {
+	case string:
+		if val.Kind() != constant.String || constant.StringVal(val) != x {
+			return fmt.Sprintf("%q evaluates to %s, want %q", text, val, x)
+		}
 	case bool:
 		if val.Kind() != constant.Bool || constant.BoolVal(val) != x {
 			return fmt.Sprintf("%q evaluates to %s, want %v", text, val, x)
@@ -138,6 +142,43 @@ func judgeLitSource(src []byte, vals []interface{}) (problems map[int]string, fa
 		return nil, fmt.Sprintf("batch declares %d literals, expected %d (type errors: %v)", n, len(vals), first(terrs, 3))
 	}
 	return problems, ""
+}
+
+// judgeLitList: src declares `var L = []interface{}{…}` and `var M = []interface{}{…}`, each holding vals in order.
+func judgeLitList(src []byte, vals []interface{}) (problems map[int]string, fatal string) {
+	problems = map[int]string{}
+	fset := token.NewFileSet()
+	af, err := parser.ParseFile(fset, "list.go", src, parser.SkipObjectResolution)
+	if err != nil {
+		return nil, "does not parse: " + err.Error()
+	}
+	info := &types.Info{Types: map[ast.Expr]types.TypeAndValue{}}
+	conf := types.Config{Error: func(error) {}}
+	conf.Check("p", fset, []*ast.File{af}, info)
+	n := 0
+	ast.Inspect(af, func(nd ast.Node) bool {
+		cl, ok := nd.(*ast.CompositeLit)
+		if !ok {
+			return true
+		}
+		if len(cl.Elts) != len(vals) {
+			fatal = fmt.Sprintf("list has %d items, want %d", len(cl.Elts), len(vals))
+			return false
+		}
+		for i, e := range cl.Elts {
+			text := string(src[fset.Position(e.Pos()).Offset:fset.Position(e.End()).Offset])
+			tv, known := info.Types[e]
+			if p := litProblem(vals[i], tv, known, text); p != "" {
+				problems[n*len(vals)+i] = p
+			}
+		}
+		n++
+		return false
+	})
+	if fatal == "" && n != 2 {
+		fatal = fmt.Sprintf("found %d lists, want 2", n)
+	}
+	return problems, fatal
 }
 
 func first(s []string, n int) []string {
@@ -461,6 +502,45 @@ func c11Batch(r *mon.Run, batches []litBatch, bi int) {
 				fmt.Printf("  %T(%v): %s\n", b.vals[i], b.vals[i], p)
 			}
 		}
+	}
+	// the same values as bare items of long single-line lists (`var X<i> = …` is one literal per statement;
+	// a table of literals is the other common way they are generated)
+	if bi%4 == 0 {
+		vals := b.vals
+		if len(vals) > 400 {
+			vals = vals[:400]
+		}
+		mixed := make([]interface{}, 0, len(vals)+len(vals)/3)
+		for i, v := range vals {
+			mixed = append(mixed, v)
+			if i%3 == 0 {
+				mixed = append(mixed, []interface{}{0.5, "e.", true, 1e+06, int8(1)}[i/3%5]) // neighbours with '.', 'e', other types
+			}
+		}
+		f := jen.NewFile("p")
+		f.Var().Id("L").Op("=").Index().Interface().ValuesFunc(func(g *jen.Group) {
+			for _, v := range mixed {
+				g.Lit(v)
+			}
+		})
+		// the same list built with the variadic form and LitFunc
+		items := make([]jen.Code, len(mixed))
+		for i, v := range mixed {
+			v := v
+			items[i] = jen.LitFunc(func() interface{} { return v })
+		}
+		f.Var().Id("M").Op("=").Index().Interface().Values(items...)
+		if src, fail := renderFile(f); fail != "" {
+			r.Violate("render-failure", c, "batch %s as a list of %d literals does not render: %s", b.name, len(mixed), fail)
+		} else if probs, fatal := judgeLitList(src, mixed); fatal != "" {
+			r.Violate("batch-unusable", c, "batch %s as a list: %s", b.name, fatal)
+		} else {
+			for i, p := range probs {
+				r.Violate("literal-in-list-"+t, mon.Case{Gen: "value", Seed: r.Seed, Index: int64(bi), Extra: mon.J(map[string]interface{}{"i": i, "value": fmt.Sprintf("%T(%v)", mixed[i%len(mixed)], mixed[i%len(mixed)])})},
+					"item %d of a %d-item list, %T(%v): %s", i%len(mixed), len(mixed), mixed[i%len(mixed)], mixed[i%len(mixed)], p)
+			}
+		}
+		r.Count("values_also_rendered_as_list_items", int64(len(mixed)))
 	}
 	for _, v := range b.vals {
 		r.Eval(fmt.Sprintf("%T|%v", v, fmtExact(v)), true)
